@@ -137,6 +137,15 @@ class FlowGen(object):
             if r.random() < 0.4:
                 st += self.simple()
             self.line(st)
+        elif x < 0.012 + 0.18 and not getattr(self, "has_data", False):
+            # branches steered by numbers that READ delivers through the empty-item filter: long spellings, large values
+            self.has_data = True
+            self.approx = True
+            big = r.choice([("num", 2e12, ["2000000000000"]), ("num", 12345678.9012, ["12345678.9012"]), ("num", 1.5e15, ["1500000000000000"])])
+            self.line([("read", [("var", "D"), ("var", "E")]),
+                       ("if", ("bin", ">", ("var", "E"), ("num", big[1] / 2, ["%r" % (big[1] / 2)])), ("stmts", [self.mark()]), [], ("stmts", [self.mark()]))])
+            self.line([("if", ("bin", "=", ("var", "D"), n(0)), ("stmts", [self.mark()]), [], None)])
+            self.data_line = [("data", [("u", ""), ("n", big[1], list(big[2]))])]
         elif x < 0.03 + 0.18:
             # an ELSE IF chain whose last arm changes a variable and then tests it, through a run-translated call, in a
             # plain IF of its own: that call belongs inside the arm, behind the change
@@ -342,6 +351,8 @@ class FlowGen(object):
         for t, body in self.subs:
             self.items.append(("label", t))
             self.items.extend(body)
+        if getattr(self, "data_line", None):
+            self.line(self.data_line)
         # number the lines
         step = self.r.choice([1, 5, 10])
         ln = self.r.choice([1, 10, 100])
